@@ -77,6 +77,9 @@ def emit(b, spec_dir, ef, m, items, pre):
     avoid = sorted(set([92, 9, 10, 13] + pats))       # backslash, the three characters the specification treats specially, every pattern of the chain
     seqlit = lambda toks: 'seq![%s]' % ', '.join(t if isinstance(t, str) else cp_lit(t) for t in toks)
     b.emit(SPEC)
+    b.emit('''// [&str; N]::contains(&s.as_str()) (R19) and a String in a format! hole
+#[verifier::external_body] pub fn vx_arr_contains_str<const N: usize>(a: &[&'static str; N], s: &String) -> (r: bool) ensures r == exists|i: int| 0 <= i < N && (#[trigger] a@[i])@ == s@ { unimplemented!() }
+impl VxShow for String { open spec fn shown(&self) -> Seq<char> { self@ } #[verifier::external_body] fn vx_show(&self) -> (r: String) { unimplemented!() } }''')
     b.lemma('escaper.list_facts', P, LIST_FACTS % dict(n=n, avoid=' && '.join('c != %s' % cp_lit(a) for a in avoid),
                                                        reveals=' '.join('reveal_strlit("%s");' % x for x in items), seq=seqlit(cps)))
     b.emit(open(os.path.join(spec_dir, 'escaper_lemmas.rs')).read())
@@ -124,7 +127,8 @@ def emit(b, spec_dir, ef, m, items, pre):
                prologue="    let mut character = character0;\n    proof { lemma_list_facts(); lemma_set_map_zero(character0@, listed(), bs_text()); reveal_strlit(%s); reveal_strlit(%s); assert(%s@ =~= seq!['\\\\']); assert(%s@ =~= seq!['\\\\', '\\\\']); }" % (BS1, BS2, BS1, BS2),
                epilogue='    character',
                clauses=[Clause('escaper.whole_text_escaped', "character@ == (if character0@ =~= seq!['\\\\'] { seq!['\\\\', '\\\\'] } else { fm(character0@, esc_map()) })", P)],
-               extra_rules=[('R12', r'\bcharacter == ("(?:[^"\\]|\\.)*")', r'vx_string_eq_lit(&character, \1)', 'PartialEq<str> for String'),
+               extra_rules=[('R19', r'\bCHARS_TO_ESCAPE\.contains\(&(\w+)\.as_str\(\)\)', r'vx_arr_contains_str(&CHARS_TO_ESCAPE, &\1)', '[&str; N]::contains(&s.as_str()): some entry equals s'),
+                            ('R12', r'\bcharacter == ("(?:[^"\\]|\\.)*")', r'vx_string_eq_lit(&character, \1)', 'PartialEq<str> for String'),
                             ('R4', r'("(?:[^"\\]|\\.)*")\.to_string\(\)', r'vx_str_to_string(\1)', '&str -> String copy')],
                loops={1: ['it1.iter.end == %d' % n, ('escaper.rounds_so_far@loop1', P, 'character@ == fm(character0@, set_map(listed(), vx_k1 as int, bs_text()))')]} if has_loop else None,
                blocks=[(1, 'loop_start', '        let ghost vx_before = character@;'),
